@@ -25,7 +25,7 @@ COMPONENTS = {"real": ["yowsup.layers.YowParallelLayer / YowProtocolLayer", "all
 ASSUMPTIONS = ["six 1.17 shim", "actor assumption", "message content fidelity is C03's/C10's business: for messages the oracle checks "
                "count, id, addressee and type", "incoming entities are matched by count, tag, id and sender, not by full "
                "re-serialisation (that is C09)"]
-BUDGET = {"quick": (800, 150), "thorough": (20000, 2400)}
+BUDGET = {"quick": (800, 150), "thorough": (100000, 2700)}
 FAULTS = ["srv_dup_delivery"]
 PROBES = ["out_exact", "out_zero_module_off", "in_one", "in_zero_module_off", "dup_routed_twice", "message_out", "message_in"]
 SHRINK = ["events"]
